@@ -175,6 +175,8 @@ OVERLAYS = {
     # a changed structure string together with a PARTIAL position table, in one entry
     "O_spec_and_positions": {"DE": {"bban_spec": "8!n10!c", "positions": {"account_code": [8, 18]}},
                              "GB": {"bban_spec": "4!a6!n8!c", "positions": {"branch_code": [4, 10]}}},
+    # countries with special keys (PL, SI: bic_lookup_components) mentioned for ANOTHER reason
+    "O_touch_special": {"PL": {"in_sepa_zone": True, "note": "x"}, "SI": {"in_sepa_zone": True}},
     # a country made longer without naming positions: the tail behind the last field is reserved
     "O_longer": {"NL": {"bban_spec": "4!a12!n", "iban_spec": "NL2!n4!a12!n", "bban_length": 16, "iban_length": 20}},
     # keys that differ from an existing one only by case are NEW keys
@@ -461,6 +463,10 @@ def v2_documents(tier: str):
     pairs = entries if tier == "thorough" else entries[::4]
     for a, b in itertools.product(pairs, repeat=2):
         docs.append({"expand_from": "bank_codes", "expand_into": "bank_code", "entries": [a, b]})
+    # entries that carry keys the library does not know (they are data like any other)
+    docs.append({"expand_from": "bank_codes", "expand_into": "bank_code", "entries": [
+        {"country_code": "DE", "bic": "AAAADEAA", "name": "extra", "short_name": "e", "bank_codes": ["1000", "4000"],
+         "source": "user", "valid_until": None, "checksum_algo": "00"}]})
     docs.append({"expand_from": "ids", "expand_into": "bank_code",
                  "entries": [{"country_code": "DE", "bic": "", "name": "x", "short_name": "y",
                               "ids": ["3000"], "bank_code": "overwritten"}]})
@@ -471,7 +477,7 @@ L1 = [{"country_code": "DE", "bank_code": "1000", "bic": "BBBBDEBB", "name": "l1
        "primary": True},
       {"country_code": "DE", "bank_code": "5000", "bic": "", "name": "l1b", "short_name": "b", "primary": False}]
 L2 = [{"country_code": "FR", "bank_code": "2000", "bic": "CCCCFRCCXXX", "name": "l2", "short_name": "c",
-       "primary": False}]
+       "primary": False, "valid_until": "2030-01-01", "clearing": {"system": "x", "ids": [1, 2]}}]
 
 
 def bank_config_problems(files: dict, listing: list):
@@ -732,10 +738,15 @@ def runtime_table_problems():
     gb_text, no_text = "GB29NWBK60161331926819", "NO9386011117947"
     pre = {}
     for name, text in (("GB", gb_text), ("NO", no_text)):
-        o = lib.IBAN(text)
+        kp, o = lib.outcome(lib.IBAN, text)
+        if kp != "ok":
+            return [("a bundled example IBAN is refused before any update", text, (kp, o))]
         _ = (o.bank_code, o.branch_code, o.account_code, o.bban.spec, o.spec, o.is_valid)   # used before
-        pre[name] = {"object": o, "deepcopy": copy.deepcopy(o), "pickle": pickle.loads(pickle.dumps(o)),
-                     "copy": copy.copy(o), "bban-deepcopy": copy.deepcopy(o.bban)}
+        kp, views0 = lib.outcome(lambda: {"object": o, "deepcopy": copy.deepcopy(o), "pickle": pickle.loads(pickle.dumps(o)),
+                                          "copy": copy.copy(o), "bban-deepcopy": copy.deepcopy(o.bban)})
+        if kp != "ok":
+            return [("an object cannot be copied before any update", text, (kp, views0))]
+        pre[name] = views0
 
     def table(change):
         t = {k: dict(v) for k, v in cur.items()}   # entries copied one level: 'regex' objects kept
@@ -765,7 +776,13 @@ def runtime_table_problems():
                 pos = new["GB"]["positions"]
                 body = gb_text[4:]
                 want = {c: (body[pos[c][0]:pos[c][1]] if c in pos else "") for c in ("bank_code", "branch_code", "account_code")}
-                views = {"fresh": lib.IBAN(gb_text), "fresh-bban": lib.BBAN("GB", body), **pre["GB"]}
+                views = dict(pre["GB"])
+                for vname, f in (("fresh", lambda: lib.IBAN(gb_text)), ("fresh-bban", lambda: lib.BBAN("GB", body))):
+                    kq, oq = lib.outcome(f)
+                    if kq == "ok":
+                        views[vname] = oq
+                    else:
+                        probs.append((f"a text that fits the saved table is refused [{label}; {vname}]", "object", (kq, oq)))
                 for vname, o in views.items():
                     k, v = lib.outcome(lambda: {c: getattr(o, c) for c in want})
                     if (k, v) != ("ok", want):
@@ -773,8 +790,8 @@ def runtime_table_problems():
                 k, v = lib.outcome(lambda: str(lib.IBAN.generate("GB", "NWBK", "31926819" if "moved" not in label else "926819",
                                                                  "601613" if "without" not in label else "")))
                 if "without" in label and k == "ok":
-                    o = lib.IBAN(v)
-                    if o.branch_code != "" or o.bank_code != "NWBK":
+                    ko_, o = lib.outcome(lib.IBAN, v)
+                    if ko_ != "ok" or o.branch_code != "" or o.bank_code != "NWBK":
                         probs.append((f"generate does not follow the saved table [{label}]", "no branch field", v))
             else:
                 for text, cc, ok in ((no_text, "NO", False), ("QQ" + ri.check_digits("QQ", no_text[4:]) + no_text[4:], "QQ", True)):
@@ -866,8 +883,14 @@ def main(tier: str) -> int:
     nsmall = len(all_docs(2))
     shards += [("merge3", i, min(nsmall, i + 4)) for i in range(0, nsmall, 4)]
     pool = ["generated.json", "overwrite.json"] + list(OVERLAYS)
+    n_overlay_only = 0
     for k in (1, 2, 3):
         for chosen in itertools.combinations(pool, k):
+            if tier == "quick" and k == 3 and not any(x.endswith(".json") for x in chosen):
+                # three overlay documents and no bundled file: every third combination in the quick tier
+                n_overlay_only += 1
+                if n_overlay_only % 3:
+                    continue
             shards.append(("ibanload", chosen, tier))
     nv2 = len(v2_documents(tier))
     shards += [("bankload", i, min(nv2, i + 12), tier) for i in range(0, nv2, 12)]
